@@ -73,6 +73,8 @@ def sniffed_alternative(path, delim_opt, true_delim):
 
 
 def gen_cases(tier, seed):
+    # the processors of this property once more with assertions disabled (python -O) against a normal interpreter
+    yield {'family': 'optimized_differential', 'idx': 9 * 10 ** 6, 'seed': seed, 'spill': False, 'big': False, 'proc': 'optimized_differential', 'names': ['a'], 'selector': None}
     n = {'quick': 110, 'thorough': 3000}[tier]
     for fam in FAMILIES:
         for i in range(n):
@@ -97,6 +99,9 @@ def write_csv(path, header, rows, lineterminator, delimiter=','):
 
 
 def run_case(case):
+    if case['family'] == 'optimized_differential':
+        from vlib import optlab
+        return optlab.as_case_result(['load_limit'], {'cells_compared': 0})
     fam = case['family']
     rng = boot.rng(case['seed'], 'C13', fam, case['idx'])
     d = lab.df()
